@@ -109,6 +109,7 @@ type Scenario struct {
 type Stats struct {
 	States       int            `json:"states"`
 	Transitions  int            `json:"transitions"`
+	RootErrors   []string       `json:"root_errors,omitempty"`
 	OKByKind     map[string]int `json:"ok_by_kind"`
 	FailByKind   map[string]int `json:"fail_by_kind"`
 	PanicTx      int            `json:"tx_panics"`
@@ -231,6 +232,20 @@ func NewExplorer(w *world.World, sc *Scenario, shard, of int, outPath string, de
 	e.stats.PanicKinds = map[string]int{}
 	go e.watchdog()
 	return e
+}
+
+func tryBuildRoot(w *world.World, r Root, rewards bool) (f *world.Flat, err string) {
+	defer func() {
+		if rec := recover(); rec != nil {
+			msg := fmt.Sprint(rec)
+			if strings.HasPrefix(msg, "HARNESS: root ") || strings.HasPrefix(msg, "HARNESS: CompleteNth") {
+				f, err = nil, msg
+				return
+			}
+			panic(rec)
+		}
+	}()
+	return BuildRoot(w, r, rewards), ""
 }
 
 // BuildRoot executes the root's setup operations on the genesis snapshot. Every setup op must succeed.
@@ -365,7 +380,13 @@ func (e *Explorer) Run() Output {
 	}
 	var roots []rootState
 	for i, r := range e.Sc.Roots {
-		f := BuildRoot(e.W, r, e.Sc.Rewards)
+		// a root whose setup cannot be executed on this tree is skipped and reported: the check then gives a verdict
+		// only if it finds a reproducible violation elsewhere, otherwise it ends as a harness error
+		f, rootErr := tryBuildRoot(e.W, r, e.Sc.Rewards)
+		if rootErr != "" {
+			e.stats.RootErrors = append(e.stats.RootErrors, e.Sc.ID+"/"+r.Name+": "+rootErr)
+			continue
+		}
 		if i == 0 {
 			// self-check: the same setup executed twice gives byte-identical states
 			if f2 := BuildRoot(e.W, r, e.Sc.Rewards); f2.Key(nil) != f.Key(nil) {
